@@ -68,6 +68,10 @@ def gen(rng, cid, tier, plugin=None, pid0=True):
     if rng.random() < 0.2 and allpids:
         linger[str(rng.choice(allpids))] = rng.randint(1, 3)
     scn = KG.base_scn(cid, cgs, KG.kill_config(plugin, args), ticks=ticks, kill=kill, linger=linger)
+    if rng.random() < 0.15:
+        scn["dtype_unknown"] = True  # children discovered through the lstat fallback
+    if rng.random() < 0.1:
+        scn["xattr_fail"] = rng.choice(["EPERM", "ENOTSUP"])
     return scn, {"plugin": plugin, "patterns": pats, "args": args}
 
 
